@@ -5,6 +5,8 @@ CONSTANTS
   TemplateHasQ = TRUE
   H = 2
   LensKind = "mixed"
+  WithReload = FALSE
+  ReloadBumpsVersion = TRUE
   WithScroll = FALSE
   DelayedSetsVersion <- TreeDelayedSetsVersion
 SPECIFICATION Spec
